@@ -156,11 +156,11 @@ def _propose(r: Rng, op: int, canon: bool) -> List[int]:
 
 
 def gen_instruction(r: Rng, addr: int, opcode: Optional[int] = None, allow_control: bool = True,
-                    canon: bool = False) -> Optional[List[int]]:
+                    canon: bool = False, avoid=()) -> Optional[List[int]]:
     """One valid encoding at `addr`: optional PRE prefix + opcode + biased operand bytes."""
     for _ in range(8):
         op = opcode if opcode is not None else r.below(256)
-        if op in EXCLUDED or (op in PRES):
+        if op in EXCLUDED or (op in PRES) or (op in avoid):
             if opcode is not None:
                 return None
             continue
@@ -182,7 +182,7 @@ def gen_instruction(r: Rng, addr: int, opcode: Optional[int] = None, allow_contr
 
 
 def gen_program(r: Rng, n_instr: int, allow_control: bool = True, base: int = CODE_LO,
-                canon: bool = False) -> Tuple[List[int], List[int]]:
+                canon: bool = False, avoid=()) -> Tuple[List[int], List[int]]:
     """Straight-line-ish program at CODE_LO: returns (bytes, instruction start offsets).
     Control transfers are kept (both replicas must agree wherever they go); near jumps are
     re-targeted into the code region half of the time so that loops and calls really run."""
@@ -190,7 +190,7 @@ def gen_program(r: Rng, n_instr: int, allow_control: bool = True, base: int = CO
     starts: List[int] = []
     while len(starts) < n_instr and len(code) < (CODE_HI - CODE_LO - 16):
         addr = base + len(code)
-        ins = gen_instruction(r, addr, allow_control=allow_control, canon=canon)
+        ins = gen_instruction(r, addr, allow_control=allow_control, canon=canon, avoid=avoid)
         if ins is None:
             continue
         op = ins[1] if ins[0] in PRES and len(ins) > 1 else ins[0]
@@ -283,7 +283,8 @@ def py_record(emu, bus, pc: int, opcode: int, ln: int, err) -> list:
             1 if emu.state.halted else 0, sorted([a, v] for a, v in bus.writes.items()), err]
 
 
-def py_run(emu, bus, n: int, lo: int = CODE_LO, hi: int = CODE_HI) -> List[list]:
+def py_run(emu, bus, n: int, lo: int = CODE_LO, hi: int = CODE_HI, stop_at=None) -> List[list]:
+    """`stop_at`: opcodes (first byte after an optional PRE) that end the run before they execute."""
     from sc62015.pysc62015.emulator import RegisterName as R
     out: List[list] = []
     for _ in range(n):
@@ -291,6 +292,11 @@ def py_run(emu, bus, n: int, lo: int = CODE_LO, hi: int = CODE_HI) -> List[list]
         if not (lo <= pc <= hi) or emu.state.halted:
             break
         opcode = bus.rd(pc)
+        fetched = [bus.rd(pc + k) for k in range(7)]
+        if stop_at:
+            first = fetched[1] if fetched[0] in PRES else fetched[0]
+            if first in stop_at:
+                break
         bus.writes = {}
         try:
             info = emu.execute_instruction(pc)
@@ -302,7 +308,7 @@ def py_run(emu, bus, n: int, lo: int = CODE_LO, hi: int = CODE_HI) -> List[list]
                 ln, err = -1, "fallback: not a valid encoding"
         except Exception as e:
             ln, err = -1, f"{type(e).__name__}: {e}"
-        out.append(py_record(emu, bus, pc, opcode, ln, err))
+        out.append(py_record(emu, bus, pc, opcode, ln, err) + [fetched])
         if ln < 0:
             break
     return out
